@@ -1,7 +1,7 @@
 """Library-call summaries for engine M. Each summary: fn(engine, path, argv, callee) -> value | [(cond, value)] | ('PANIC', msg)."""
 import re
 import z3
-from mirx import Obj, Ref, const_obj, bool_obj, enum_obj, opaque_obj, Unsupported
+from mirx import Obj, Ref, P, const_obj, bool_obj, enum_obj, opaque_obj, Unsupported
 
 ADMIN = z3.Int('admin_pre')
 
@@ -225,7 +225,62 @@ def s_ok_or(eng, path, argv, callee):
     return r
 
 
+def s_get_or_insert(eng, path, argv, callee):
+    """Option::get_or_insert(&mut self, v): keeps an existing value, otherwise stores Some(v); returns &mut to it."""
+    ref = argv[0]
+    if not isinstance(ref, Ref):
+        raise Unsupported('get_or_insert receiver is not a reference')
+    o = path.deref(ref)
+    d = _two(path, o)
+    val = argv[1]
+
+    def keep(p):
+        return Ref(ref.frame, P(ref.place.local, ref.place.proj + (('as', 'Some'), 0)))
+
+    def store(p):
+        pay = Obj('p%d' % next(Obj.cnt))
+        pay.fields[0] = val.clone() if isinstance(val, Obj) else val
+        p.write(ref.place, enum_obj(1, 'Some', pay), ref.frame)
+        return Ref(ref.frame, P(ref.place.local, ref.place.proj + (('as', 'Some'), 0)))
+    return [(d == 1, None, keep), (d == 0, None, store)]
+
+
+def s_opt_insert(eng, path, argv, callee):
+    ref = argv[0]
+    if not isinstance(ref, Ref):
+        raise Unsupported('insert receiver is not a reference')
+    pay = Obj('p%d' % next(Obj.cnt))
+    pay.fields[0] = argv[1].clone() if isinstance(argv[1], Obj) else argv[1]
+    path.write(ref.place, enum_obj(1, 'Some', pay), ref.frame)
+    return Ref(ref.frame, P(ref.place.local, ref.place.proj + (('as', 'Some'), 0)))
+
+
+def s_opt_take(eng, path, argv, callee):
+    ref = argv[0]
+    if not isinstance(ref, Ref):
+        raise Unsupported('take receiver is not a reference')
+    old = path.deref(ref).clone()
+    path.write(ref.place, enum_obj(0, 'None', Obj('unit')), ref.frame)
+    return old
+
+
+def s_opt_or(eng, path, argv, callee):
+    a, b = path.deref(argv[0]), path.deref(argv[1])
+    d = _two(path, a)
+    return [(d == 1, a), (d == 0, b)]
+
+
+def s_plus_seconds(eng, path, argv, callee):
+    # Timestamp abstracted to whole seconds
+    return const_obj(path.deref(argv[0]).scalar() + path.deref(argv[1]).scalar())
+
+
 BASE = [
+    (r'Option::<.*>::get_or_insert$', s_get_or_insert),
+    (r'Option::<.*>::insert$', s_opt_insert),
+    (r'Option::<.*>::take$', s_opt_take),
+    (r'Option::<.*>::or$', s_opt_or),
+    (r'Timestamp::plus_seconds$', s_plus_seconds),
     (r'<impl u64>::checked_add$', s_u64_checked_add),
     (r'<impl u64>::checked_sub$', s_u64_checked_sub),
     (r'Option::<.*>::ok_or_else::<|Option::<.*>::ok_or::<', s_ok_or),
